@@ -608,8 +608,9 @@ func contentList(computer *ComputedStyle, values pr.ContentProperties) (pr.Conte
 			computedValue = value
 		case "attr()":
 			attr, ok := value.Content.(pr.AttrData)
-			if !ok || attr.TypeOrUnit != "string" {
-				panic(fmt.Sprintf("invalid attr() property : %v", value.Content))
+			if !ok || (attr.TypeOrUnit != "string" && attr.TypeOrUnit != "url") {
+				// the validator only lets attr(x), attr(x string) and attr(x url) through
+				return nil, fmt.Errorf("invalid attr() property : %v", value.Content)
 			}
 			var err error
 			computedValue, err = computeAttrFunction(computer, attr)
